@@ -42,6 +42,10 @@ func ResolveRef(root interface{}, ref *Ref) (*Schema, error) {
 	case Schema:
 		return &sch, nil
 	case *Schema:
+		if sch == nil {
+			// optional member of a typed schema which is not set
+			return nil, fmt.Errorf("%q points to a member which is not set: %w", ref.String(), ErrSpec)
+		}
 		return sch, nil
 	case map[string]interface{}:
 		newSch := new(Schema)
